@@ -248,7 +248,9 @@ package mux
 //@   ensures [C08] size: resp.size == old(resp.size) + len(bs)
 //@   ensures [C08] content-length: hdrOf(resp.ResponseWriter).first["Content-Length"] == pure0("strconv.Itoa", resp.size)
 //
-//@ pred routerOK(r *Router) = r != nil && r.tree != nil && r.call != nil && corsValid(r.cors) && treeOK(r.tree) && lockFree(r.tree)
+// routerTree: what the registration facades need; routerOK adds what serving needs
+//@ pred routerTree(r *Router) = r != nil && r.tree != nil && treeOK(r.tree) && lockFree(r.tree)
+//@ pred routerOK(r *Router) = routerTree(r) && r.call != nil && corsValid(r.cors)
 //
 // The deferred closure of serveContext: recovers and hands the value to the RecoverFunc exactly once.
 //@ fn Router.serveContext$1
@@ -299,7 +301,7 @@ package mux
 //@   ensures [C19] value: result == r.pattern
 //
 //@ fn Router.Handle
-//@   requires routerOK(r) && allSafe() && sepOK()
+//@   requires routerTree(r) && allSafe() && sepOK()
 //@   maypanic
 //@   callsonly [C19,C17] slices.Concat, tree.Tree.Add
 //@   atcall tree.Tree.Add [C19,C09,C17] delegate: arg0 == r.tree && arg1 == pattern && arg2 == h && isConcat(arg3, m, r.ms) && arg4 == methods
@@ -307,48 +309,48 @@ package mux
 //@   ensures [C17] accepted: callresult("tree.Tree.Add", 1, 0) == nil
 //
 //@ fn Router.Get
-//@   requires routerOK(r) && allSafe() && sepOK()
+//@   requires routerTree(r) && allSafe() && sepOK()
 //@   callsonly [C19] mux.Router.Handle
 //@   atcall mux.Router.Handle [C19] delegate: arg0 == r && arg1 == pattern && arg2 == h && arg3 == m && one(arg4, "GET")
 //@   ensures [C19] self: result == r
 //
 //@ fn Router.Post
-//@   requires routerOK(r) && allSafe() && sepOK()
+//@   requires routerTree(r) && allSafe() && sepOK()
 //@   callsonly [C19] mux.Router.Handle
 //@   atcall mux.Router.Handle [C19] delegate: arg0 == r && arg1 == pattern && arg2 == h && arg3 == m && one(arg4, "POST")
 //@   ensures [C19] self: result == r
 //
 //@ fn Router.Delete
-//@   requires routerOK(r) && allSafe() && sepOK()
+//@   requires routerTree(r) && allSafe() && sepOK()
 //@   callsonly [C19] mux.Router.Handle
 //@   atcall mux.Router.Handle [C19] delegate: arg0 == r && arg1 == pattern && arg2 == h && arg3 == m && one(arg4, "DELETE")
 //@   ensures [C19] self: result == r
 //
 //@ fn Router.Put
-//@   requires routerOK(r) && allSafe() && sepOK()
+//@   requires routerTree(r) && allSafe() && sepOK()
 //@   callsonly [C19] mux.Router.Handle
 //@   atcall mux.Router.Handle [C19] delegate: arg0 == r && arg1 == pattern && arg2 == h && arg3 == m && one(arg4, "PUT")
 //@   ensures [C19] self: result == r
 //
 //@ fn Router.Patch
-//@   requires routerOK(r) && allSafe() && sepOK()
+//@   requires routerTree(r) && allSafe() && sepOK()
 //@   callsonly [C19] mux.Router.Handle
 //@   atcall mux.Router.Handle [C19] delegate: arg0 == r && arg1 == pattern && arg2 == h && arg3 == m && one(arg4, "PATCH")
 //@   ensures [C19] self: result == r
 //
 //@ fn Router.Any
-//@   requires routerOK(r) && allSafe() && sepOK()
+//@   requires routerTree(r) && allSafe() && sepOK()
 //@   callsonly [C19] mux.Router.Handle
 //@   atcall mux.Router.Handle [C19] delegate: arg0 == r && arg1 == pattern && arg2 == h && arg3 == m && len(arg4) == 0
 //@   ensures [C19] self: result == r
 //
 //@ fn Router.Remove
-//@   requires routerOK(r) && allSafe() && sepOK()
+//@   requires routerTree(r) && allSafe() && sepOK()
 //@   callsonly [C19] tree.Tree.Remove
 //@   atcall tree.Tree.Remove [C19] delegate: arg0 == r.tree && arg1 == pattern && arg2 == methods
 //
 //@ fn Router.Clean
-//@   requires routerOK(r) && allSafe() && sepOK()
+//@   requires routerTree(r) && allSafe() && sepOK()
 //@   callsonly [C19] tree.Tree.Clean
 //@   atcall tree.Tree.Clean [C19] delegate: arg0 == r.tree && arg1 == ""
 //
@@ -368,54 +370,54 @@ package mux
 //@   ensures [C19] cloned: len(m) > 0 ==> fresh(result.ms)
 //
 //@ fn Prefix.Handle
-//@   requires p != nil && routerOK(p.router) && allSafe() && sepOK()
+//@   requires p != nil && routerTree(p.router) && allSafe() && sepOK()
 //@   callsonly [C19] mux.Prefix.Pattern, slices.Concat, mux.Router.Handle
 //@   atcall mux.Router.Handle [C19,C09] delegate: arg0 == p.router && arg1 == p.pattern + pattern && arg2 == h && isConcat(arg3, m, p.ms) && arg4 == methods
 //@   ensures [C19] self: result == p
 //
 //@ fn Prefix.Get
-//@   requires p != nil && routerOK(p.router) && allSafe() && sepOK()
+//@   requires p != nil && routerTree(p.router) && allSafe() && sepOK()
 //@   callsonly [C19] mux.Prefix.Handle
 //@   atcall mux.Prefix.Handle [C19] delegate: arg0 == p && arg1 == pattern && arg2 == h && arg3 == m && one(arg4, "GET")
 //@   ensures [C19] self: result == p
 //
 //@ fn Prefix.Post
-//@   requires p != nil && routerOK(p.router) && allSafe() && sepOK()
+//@   requires p != nil && routerTree(p.router) && allSafe() && sepOK()
 //@   callsonly [C19] mux.Prefix.Handle
 //@   atcall mux.Prefix.Handle [C19] delegate: arg0 == p && arg1 == pattern && arg2 == h && arg3 == m && one(arg4, "POST")
 //@   ensures [C19] self: result == p
 //
 //@ fn Prefix.Delete
-//@   requires p != nil && routerOK(p.router) && allSafe() && sepOK()
+//@   requires p != nil && routerTree(p.router) && allSafe() && sepOK()
 //@   callsonly [C19] mux.Prefix.Handle
 //@   atcall mux.Prefix.Handle [C19] delegate: arg0 == p && arg1 == pattern && arg2 == h && arg3 == m && one(arg4, "DELETE")
 //@   ensures [C19] self: result == p
 //
 //@ fn Prefix.Put
-//@   requires p != nil && routerOK(p.router) && allSafe() && sepOK()
+//@   requires p != nil && routerTree(p.router) && allSafe() && sepOK()
 //@   callsonly [C19] mux.Prefix.Handle
 //@   atcall mux.Prefix.Handle [C19] delegate: arg0 == p && arg1 == pattern && arg2 == h && arg3 == m && one(arg4, "PUT")
 //@   ensures [C19] self: result == p
 //
 //@ fn Prefix.Patch
-//@   requires p != nil && routerOK(p.router) && allSafe() && sepOK()
+//@   requires p != nil && routerTree(p.router) && allSafe() && sepOK()
 //@   callsonly [C19] mux.Prefix.Handle
 //@   atcall mux.Prefix.Handle [C19] delegate: arg0 == p && arg1 == pattern && arg2 == h && arg3 == m && one(arg4, "PATCH")
 //@   ensures [C19] self: result == p
 //
 //@ fn Prefix.Any
-//@   requires p != nil && routerOK(p.router) && allSafe() && sepOK()
+//@   requires p != nil && routerTree(p.router) && allSafe() && sepOK()
 //@   callsonly [C19] mux.Prefix.Handle
 //@   atcall mux.Prefix.Handle [C19] delegate: arg0 == p && arg1 == pattern && arg2 == h && arg3 == m && len(arg4) == 0
 //@   ensures [C19] self: result == p
 //
 //@ fn Prefix.Remove
-//@   requires p != nil && routerOK(p.router) && allSafe() && sepOK()
+//@   requires p != nil && routerTree(p.router) && allSafe() && sepOK()
 //@   callsonly [C19] mux.Prefix.Pattern, mux.Router.Remove
 //@   atcall mux.Router.Remove [C19] delegate: arg0 == p.router && arg1 == p.pattern + pattern && arg2 == methods
 //
 //@ fn Prefix.Clean
-//@   requires p != nil && routerOK(p.router) && allSafe() && sepOK()
+//@   requires p != nil && routerTree(p.router) && allSafe() && sepOK()
 //@   callsonly [C19] mux.Prefix.Pattern, tree.Tree.Clean
 //@   atcall tree.Tree.Clean [C19] delegate: arg0 == p.router.tree && arg1 == p.pattern
 //
@@ -443,54 +445,54 @@ package mux
 //@   ensures [C19] value: result == p.router
 //
 //@ fn Resource.Handle
-//@   requires r != nil && routerOK(r.router) && allSafe() && sepOK()
+//@   requires r != nil && routerTree(r.router) && allSafe() && sepOK()
 //@   callsonly [C19] slices.Concat, mux.Router.Handle
 //@   atcall mux.Router.Handle [C19,C09] delegate: arg0 == r.router && arg1 == r.pattern && arg2 == h && isConcat(arg3, m, r.ms) && arg4 == methods
 //@   ensures [C19] self: result == r
 //
 //@ fn Resource.Get
-//@   requires r != nil && routerOK(r.router) && allSafe() && sepOK()
+//@   requires r != nil && routerTree(r.router) && allSafe() && sepOK()
 //@   callsonly [C19] mux.Resource.Handle
 //@   atcall mux.Resource.Handle [C19] delegate: arg0 == r && arg1 == h && arg2 == m && one(arg3, "GET")
 //@   ensures [C19] self: result == r
 //
 //@ fn Resource.Post
-//@   requires r != nil && routerOK(r.router) && allSafe() && sepOK()
+//@   requires r != nil && routerTree(r.router) && allSafe() && sepOK()
 //@   callsonly [C19] mux.Resource.Handle
 //@   atcall mux.Resource.Handle [C19] delegate: arg0 == r && arg1 == h && arg2 == m && one(arg3, "POST")
 //@   ensures [C19] self: result == r
 //
 //@ fn Resource.Delete
-//@   requires r != nil && routerOK(r.router) && allSafe() && sepOK()
+//@   requires r != nil && routerTree(r.router) && allSafe() && sepOK()
 //@   callsonly [C19] mux.Resource.Handle
 //@   atcall mux.Resource.Handle [C19] delegate: arg0 == r && arg1 == h && arg2 == m && one(arg3, "DELETE")
 //@   ensures [C19] self: result == r
 //
 //@ fn Resource.Put
-//@   requires r != nil && routerOK(r.router) && allSafe() && sepOK()
+//@   requires r != nil && routerTree(r.router) && allSafe() && sepOK()
 //@   callsonly [C19] mux.Resource.Handle
 //@   atcall mux.Resource.Handle [C19] delegate: arg0 == r && arg1 == h && arg2 == m && one(arg3, "PUT")
 //@   ensures [C19] self: result == r
 //
 //@ fn Resource.Patch
-//@   requires r != nil && routerOK(r.router) && allSafe() && sepOK()
+//@   requires r != nil && routerTree(r.router) && allSafe() && sepOK()
 //@   callsonly [C19] mux.Resource.Handle
 //@   atcall mux.Resource.Handle [C19] delegate: arg0 == r && arg1 == h && arg2 == m && one(arg3, "PATCH")
 //@   ensures [C19] self: result == r
 //
 //@ fn Resource.Any
-//@   requires r != nil && routerOK(r.router) && allSafe() && sepOK()
+//@   requires r != nil && routerTree(r.router) && allSafe() && sepOK()
 //@   callsonly [C19] mux.Resource.Handle
 //@   atcall mux.Resource.Handle [C19] delegate: arg0 == r && arg1 == h && arg2 == m && len(arg3) == 0
 //@   ensures [C19] self: result == r
 //
 //@ fn Resource.Remove
-//@   requires r != nil && routerOK(r.router) && allSafe() && sepOK()
+//@   requires r != nil && routerTree(r.router) && allSafe() && sepOK()
 //@   callsonly [C19] mux.Router.Remove
 //@   atcall mux.Router.Remove [C19] delegate: arg0 == r.router && arg1 == r.pattern && arg2 == methods
 //
 //@ fn Resource.Clean
-//@   requires r != nil && routerOK(r.router) && allSafe() && sepOK()
+//@   requires r != nil && routerTree(r.router) && allSafe() && sepOK()
 //@   callsonly [C19] mux.Router.Remove
 //@   atcall mux.Router.Remove [C19] delegate: arg0 == r.router && arg1 == r.pattern && len(arg2) == 0
 //
